@@ -32,6 +32,14 @@ for pid in sorted(check.PROPS):
     print("setup: runner %s %s (%.0fs)" % (pid, "ok" if ok else "FAILED", dt))
     if not ok:
         print(out[-2000:]); bad += 1
+    else:
+        # runners that rebuild themselves with the race detector: warm that build cache too
+        cdir = os.path.join(check.HARNESS, "cmd", pid.lower())
+        if any('"-race"' in open(os.path.join(cdir, f)).read() for f in os.listdir(cdir) if f.endswith(".go")):
+            cmd = ["go", "build", "-race", "-modfile", os.path.join(work, "go.mod"), "-tags", "verif",
+                   "-overlay", os.path.join(work, "overlay.json"), "-o", os.path.join(work, "implrun_race"), "./cmd/" + pid.lower()]
+            rc, o2, dt2 = check.sh(cmd, 1500, cwd=check.HARNESS, env=check.GOENV)
+            print("setup: race build %s %s (%.0fs)" % (pid, "ok" if rc == 0 else "FAILED (checks fall back to the plain child)", dt2))
     shutil.rmtree(work, ignore_errors=True)
 sys.exit(1 if bad else 0)
 PY
